@@ -33,7 +33,7 @@ def plan(tier, seed):
 def minimums(tier):
     return {"plid.queries": 3000, "plid.short_id_queries": 500, "bmcid.queries": 1000, "id.queries": 1000, "src.queries": 2000,
             "srcexclude.queries": 300, "found.hidden_or_nonserviceable": 1000, "notfound.queries": 300,
-            "bmcid.zero_queries": 40, "bmcid.queries_with_unopenable_entries": 300, "lookups.hex_display": 1000}
+            "bmcid.zero_queries": 40, "bmcid.queries_with_unopenable_entries": 300, "lookups.hex_display": 1000, "src.queries_with_edge_blanks": 100}
 
 
 def forms(rng, v):
@@ -204,8 +204,13 @@ def run(spec, ctx):
                 b = rng.randrange(a + 1, len(ref) + 1)
                 subs.add(ref[a:b])
             subs.update([ref, ref[:2], ref[:4], ref[4:8], ref[:8], ref.lower(), ref[:1]])
-        subs.update(["ZZZZ", "BD", "11", "B", "0", "bd"])
-        for s in sorted(x for x in subs if x and not x.startswith("-") and x.strip() == x):
+            if " " in ref:
+                # a reference code of two words: search strings that begin or end with the blank are substrings like any other
+                k = ref.index(" ")
+                subs.update([" ", ref[k - 1:k + 1], ref[k:k + 2], ref[k - 2:k + 3], " " + ref[k + 1:]])
+                ctx.count("src.queries_with_edge_blanks", 5)
+        subs.update(["ZZZZ", "BD", "11", "B", "0", "bd", "1 ", " 0"])
+        for s in sorted(x for x in subs if x and not x.startswith("-")):
             ctx.count("src.queries")
             want = [e for e in with_src if s in e.pel.primary_src().m["refcode"]]
             ctx.case("src%s|%r" % (s, desc), True)
